@@ -54,7 +54,9 @@ KSet0 == [sc \in {"base", "high"} |-> K0(sc)]
 NoSess == [none |-> TRUE]
 
 \* --- the reference session --------------------------------------------------------------------
-NewSess(sc, k) == [sc |-> sc, clock |-> 1, k |-> k, s |-> 0, live |-> FALSE, slog |-> <<>>, rlog |-> <<>>]
+\* lock: a stream-steps response of this session is open (the advisory lock of StepLock.tla is held); sset: its settings
+NewSess(sc, k) == [sc |-> sc, clock |-> 1, k |-> k, s |-> 0, live |-> FALSE, slog |-> <<>>, rlog |-> <<>>, lock |-> FALSE, sset |-> 0]
+Locked(m, i) == m[i] # Null /\ m[i].sess # NoSess /\ m[i].sess.lock
 Row(c, s, k) == [t |-> c, s |-> s, f |-> k, k |-> k]
 \* one step, intended semantics: a setting takes effect at this step and stays
 StepI(ss, set) ==
@@ -113,7 +115,7 @@ Start(i, to) ==     \* POST /start-instance {timeout}
     /\ Log([op |-> "Start", i |-> i, to |-> to, status |-> 200, alive |-> Alive(mem')])
 
 Begin(i, sc, kv) ==  \* POST /<i>/begin-session (settings: constant k := kv unless kv = 0)
-    /\ "Begin" \in Ops /\ known[i] # Null /\ SelfAccessOK(i)
+    /\ "Begin" \in Ops /\ known[i] # Null /\ SelfAccessOK(i) /\ ~Locked(mem, i)
     /\ IF ~Exists(i)
        THEN /\ UNCHANGED <<mem, store, ideal, known>>
             /\ Log([op |-> "Begin", i |-> i, sc |-> sc, kv |-> kv, status |-> 500])
@@ -129,7 +131,7 @@ Begin(i, sc, kv) ==  \* POST /<i>/begin-session (settings: constant k := kv unle
     /\ UNCHANGED now
 
 End(i) ==            \* POST /<i>/end-session
-    /\ "End" \in Ops /\ known[i] # Null /\ SelfAccessOK(i)
+    /\ "End" \in Ops /\ known[i] # Null /\ SelfAccessOK(i) /\ ~Locked(mem, i)
     /\ IF ~Exists(i)
        THEN /\ UNCHANGED <<mem, store, ideal, known>> /\ Log([op |-> "End", i |-> i, status |-> 500])
        ELSE LET m2 == Access([Ensure(mem, i) EXCEPT ![i].sess = NoSess], i)
@@ -149,6 +151,9 @@ Step(i, set) ==      \* POST /<i>/run-step  (set > 0: settings k := set; 0: empt
             THEN /\ mem' = Access(m1, i) /\ store' = Saved(store, Access(m1, i), i)   \* nothing ran; the (session-less) instance is externalised
                  /\ UNCHANGED ideal /\ SeenAcc(i)
                  /\ Log([op |-> "Step", i |-> i, set |-> set, status |-> 500])
+            ELSE IF m1[i].sess.lock                                               \* a stream of this instance is open: refused (C18)
+            THEN /\ mem' = Access(m1, i) /\ UNCHANGED <<store, ideal>> /\ SeenAcc(i)
+                 /\ Log([op |-> "Step", i |-> i, set |-> set, status |-> 500, locked |-> TRUE])
             ELSE LET sv == IF set > 0 THEN set ELSE 0
                      r == StepF(m1[i].sess, sv, m1[i].kset[m1[i].sess.sc])
                      m2 == Access([m1 EXCEPT ![i].sess = r.ss], i)
@@ -182,6 +187,9 @@ StepsN(i, n, set) ==
                  /\ UNCHANGED ideal /\ SeenAcc(i)
                  /\ Log([op |-> "Steps", i |-> i, n |-> n, set |-> set, status |-> 200,
                          rows |-> [k \in 1..n |-> [msg |-> "null"]], want |-> [k \in 1..n |-> [msg |-> "null"]]])
+            ELSE IF m1[i].sess.lock
+            THEN /\ mem' = Access(m1, i) /\ UNCHANGED <<store, ideal>> /\ SeenAcc(i)
+                 /\ Log([op |-> "Steps", i |-> i, n |-> n, set |-> set, status |-> 500, locked |-> TRUE])
             ELSE LET r == Many(m1[i].sess, n, set, m1[i].kset[m1[i].sess.sc], <<>>)
                      m2 == Access([m1 EXCEPT ![i].sess = r.ss], i)
                      ri == IF ideal[i].sess = NoSess THEN [ss |-> NoSess, rows |-> <<>>] ELSE ManyI(ideal[i].sess, n, set, <<>>)
@@ -192,6 +200,35 @@ StepsN(i, n, set) ==
                             clock |-> IF ri.ss = NoSess THEN 0 ELSE ri.ss.clock, slog |-> IF ri.ss = NoSess THEN <<>> ELSE ri.ss.slog,
                             slogF |-> r.ss.slog])
     /\ UNCHANGED now
+
+\* POST /<i>/stream-steps, at the granularity a client sees it: the response is opened (the session is locked, the first
+\* result is produced), further results are produced one by one as the client reads them, and the response ends or the
+\* client goes away (the lock is released).  Between these steps the server serves other requests.
+StreamOpen(i, set) ==
+    /\ "Stream" \in Ops /\ ~Adapter /\ known[i] # Null /\ mem[i] # Null /\ ~Expired(mem, i, now)
+    /\ mem[i].sess # NoSess /\ mem[i].sess.clock <= Stop /\ ideal[i].sess # NoSess
+    /\ IF mem[i].sess.lock
+       THEN /\ mem' = Access(mem, i) /\ UNCHANGED <<store, ideal>> /\ SeenAcc(i)
+            /\ Log([op |-> "StreamOpen", i |-> i, set |-> set, status |-> 500, locked |-> TRUE])
+       ELSE LET r == StepF(mem[i].sess, set, mem[i].kset[mem[i].sess.sc])
+                ri == StepI(ideal[i].sess, set)
+            IN /\ mem' = Access([mem EXCEPT ![i].sess = [r.ss EXCEPT !.lock = TRUE, !.sset = set]], i)
+               /\ ideal' = [ideal EXCEPT ![i].sess = [ri.ss EXCEPT !.lock = TRUE, !.sset = set]]
+               /\ UNCHANGED store /\ SeenAcc(i)
+               /\ Log([op |-> "StreamOpen", i |-> i, set |-> set, status |-> 200, row |-> r.row, want |-> ri.row])
+    /\ UNCHANGED now
+StreamNext(i) ==
+    /\ "Stream" \in Ops /\ Locked(mem, i) /\ mem[i].sess.clock <= Stop
+    /\ LET r == StepF(mem[i].sess, mem[i].sess.sset, mem[i].kset[mem[i].sess.sc])
+           ri == StepI(ideal[i].sess, ideal[i].sess.sset)
+       IN /\ mem' = [mem EXCEPT ![i].sess = r.ss] /\ ideal' = [ideal EXCEPT ![i].sess = ri.ss]
+          /\ Log([op |-> "StreamNext", i |-> i, status |-> 200, row |-> r.row, want |-> ri.row])
+    /\ UNCHANGED <<now, store, known>>
+StreamClose(i) ==
+    /\ "Stream" \in Ops /\ Locked(mem, i)
+    /\ mem' = [mem EXCEPT ![i].sess.lock = FALSE] /\ ideal' = [ideal EXCEPT ![i].sess.lock = FALSE]
+    /\ UNCHANGED <<now, store, known>>
+    /\ Log([op |-> "StreamClose", i |-> i, status |-> 200, ended |-> mem[i].sess.clock > Stop])
 
 Results(i) ==        \* GET /<i>/session-results
     /\ "Results" \in Ops /\ known[i] # Null /\ SelfAccessOK(i)
@@ -216,7 +253,7 @@ KeepAlive(i) ==      \* POST /<i>/keep-alive
     /\ UNCHANGED now
 
 StopInst(i) ==       \* POST /<i>/stop-instance : forget the instance and its external state
-    /\ "Stop" \in Ops /\ known[i] # Null
+    /\ "Stop" \in Ops /\ known[i] # Null /\ ~Locked(mem, i)
     /\ mem' = [mem EXCEPT ![i] = Null] /\ store' = [store EXCEPT ![i] = Null]
     /\ known' = [known EXCEPT ![i] = Null] /\ ideal' = [ideal EXCEPT ![i] = Null]
     /\ UNCHANGED now
@@ -273,13 +310,14 @@ DoBegin == \E i \in Inst, sc \in Scen, kv \in KVals : Begin(i, sc, kv)
 DoEnd   == \E i \in Inst : End(i)
 DoStep  == \E i \in Inst, set \in (StepVals \cup {0 - 1}) : Step(i, set)
 DoSteps == \E i \in Inst, n \in {2, 3}, set \in StepVals : StepsN(i, n, set)
+DoStream == \E i \in Inst : (\E set \in StepVals : StreamOpen(i, set)) \/ StreamNext(i) \/ StreamClose(i)
 DoResults == \E i \in Inst : Results(i)
 DoKeepAlive == \E i \in Inst : KeepAlive(i)
 DoStop  == \E i \in Inst : StopInst(i)
 DoTick  == \E d \in Ticks : Tick(d)
 DoTear  == \E i \in Inst : Tear(i)
 DoRefused == \E kind \in Kinds, i \in Inst, cred \in Creds : Refused(kind, i, cred)
-Next == DoStart \/ DoBegin \/ DoEnd \/ DoStep \/ DoSteps \/ DoResults \/ DoKeepAlive \/ DoStop \/ Metrics \/ DoTick
+Next == DoStart \/ DoBegin \/ DoEnd \/ DoStep \/ DoSteps \/ DoStream \/ DoResults \/ DoKeepAlive \/ DoStop \/ Metrics \/ DoTick
         \/ SaveState \/ LoadState \/ Crash \/ DoTear \/ DoRefused
 Spec == Init /\ [][Next]_vars
 
@@ -296,13 +334,13 @@ GoneOK == (LastResp.op \in SweepOps /\ LastResp.status = 200)
             => \A i \in Inst : mem[i] # Null => now < mem[i].last + mem[i].to
 \* C20 / C19: whatever happened (sweeps, restores, crashes), a step answers what the uninterrupted
 \* session would answer, and the served results are the uninterrupted session's results
-Continuity == (LastResp.op \in {"Step", "Steps", "Results"} /\ LastResp.status = 200)
-                => IF LastResp.op = "Step" THEN LastResp.row = LastResp.want ELSE LastResp.rows = LastResp.want
+Continuity == (LastResp.op \in {"Step", "Steps", "Results", "StreamOpen", "StreamNext"} /\ LastResp.status = 200)
+                => IF LastResp.op \in {"Step", "StreamOpen", "StreamNext"} THEN LastResp.row = LastResp.want ELSE LastResp.rows = LastResp.want
 \* C19: what is externalised is the in-memory session, losslessly
 RoundTrip == \A i \in Inst : (Adapter /\ Readable(i) /\ mem[i] # Null /\ mem[i].sess # NoSess /\ store[i].sess # NoSess)
                                => (store[i].sess.clock <= mem[i].sess.clock)
 \* C16: a request addressed to i changes no other instance (timeouts excepted: they depend on the clock only)
-Isolated == [][\A i \in Inst : (resp'.op \in {"Begin", "End", "Step", "Steps", "Results", "KeepAlive", "Stop"}
+Isolated == [][\A i \in Inst : (resp'.op \in {"Begin", "End", "Step", "Steps", "Results", "KeepAlive", "Stop", "StreamOpen", "StreamNext", "StreamClose"}
                                 /\ resp'.i # i /\ mem[i] # Null /\ ~Expired(mem, i, now))
                                => mem'[i] = mem[i] /\ store'[i] = store[i]]_vars
 
